@@ -52,6 +52,10 @@ pub struct SorterBuilder<MF, CC> {
     sort_algorithm: SortAlgorithm,
     sort_in_parallel: bool,
     merge: MF,
+    #[cfg(grenad_verif)]
+    verif_initial_capacity: Option<usize>,
+    #[cfg(grenad_verif)]
+    verif_block_size_unclamped: Option<usize>,
 }
 
 impl<MF> SorterBuilder<MF, DefaultChunkCreator> {
@@ -71,7 +75,45 @@ impl<MF> SorterBuilder<MF, DefaultChunkCreator> {
             sort_algorithm: SortAlgorithm::Stable,
             sort_in_parallel: false,
             merge,
+            #[cfg(grenad_verif)]
+            verif_initial_capacity: None,
+            #[cfg(grenad_verif)]
+            verif_block_size_unclamped: None,
         }
+    }
+}
+
+#[cfg(grenad_verif)]
+impl<MF, CC> SorterBuilder<MF, CC> {
+    /// Verification hook: defines the dump threshold without clamping it to the minimum.
+    pub fn verif_dump_threshold_unclamped(&mut self, memory: usize) -> &mut Self {
+        self.dump_threshold = memory;
+        self
+    }
+
+    /// Verification hook: defines the initial capacity of the in-memory buffer.
+    pub fn verif_initial_capacity(&mut self, capacity: usize) -> &mut Self {
+        self.verif_initial_capacity = Some(capacity);
+        self
+    }
+
+    /// Verification hook: defines the block size of the chunks without clamping it.
+    pub fn verif_block_size_unclamped(&mut self, size: usize) -> &mut Self {
+        self.verif_block_size_unclamped = Some(size);
+        self
+    }
+}
+
+#[cfg(grenad_verif)]
+impl<MF, CC: ChunkCreator> Sorter<MF, CC> {
+    /// Verification hook: `(buffer length, entries_len, bounds_count, number of chunks)`.
+    pub fn verif_state(&self) -> (usize, usize, usize, usize) {
+        (
+            self.entries.buffer.len(),
+            self.entries.entries_len,
+            self.entries.bounds_count,
+            self.chunks.len(),
+        )
     }
 }
 
@@ -172,6 +214,10 @@ impl<MF, CC> SorterBuilder<MF, CC> {
             sort_algorithm: self.sort_algorithm,
             sort_in_parallel: self.sort_in_parallel,
             merge: self.merge,
+            #[cfg(grenad_verif)]
+            verif_initial_capacity: self.verif_initial_capacity,
+            #[cfg(grenad_verif)]
+            verif_block_size_unclamped: self.verif_block_size_unclamped,
         }
     }
 }
@@ -181,6 +227,8 @@ impl<MF, CC: ChunkCreator> SorterBuilder<MF, CC> {
     pub fn build(self) -> Sorter<MF, CC> {
         let capacity =
             if self.allow_realloc { INITIAL_SORTER_VEC_SIZE } else { self.dump_threshold };
+        #[cfg(grenad_verif)]
+        let capacity = self.verif_initial_capacity.unwrap_or(capacity);
 
         Sorter {
             chunks: Vec::new(),
@@ -198,6 +246,8 @@ impl<MF, CC: ChunkCreator> SorterBuilder<MF, CC> {
             sort_algorithm: self.sort_algorithm,
             sort_in_parallel: self.sort_in_parallel,
             merge_function: self.merge,
+            #[cfg(grenad_verif)]
+            verif_block_size_unclamped: self.verif_block_size_unclamped,
         }
     }
 }
@@ -443,6 +493,8 @@ pub struct Sorter<MF, CC: ChunkCreator = DefaultChunkCreator> {
     sort_algorithm: SortAlgorithm,
     sort_in_parallel: bool,
     merge_function: MF,
+    #[cfg(grenad_verif)]
+    verif_block_size_unclamped: Option<usize>,
 }
 
 impl<MF> Sorter<MF, DefaultChunkCreator> {
@@ -530,6 +582,10 @@ where
         if let Some(index_levels) = self.index_levels {
             writer_builder.index_levels(index_levels);
         }
+        #[cfg(grenad_verif)]
+        if let Some(block_size) = self.verif_block_size_unclamped {
+            writer_builder.verif_block_size_unclamped(block_size);
+        }
         let mut writer = writer_builder.build(count_write_chunk);
 
         if self.sort_in_parallel {
@@ -601,6 +657,10 @@ where
         }
         if let Some(index_levels) = self.index_levels {
             writer_builder.index_levels(index_levels);
+        }
+        #[cfg(grenad_verif)]
+        if let Some(block_size) = self.verif_block_size_unclamped {
+            writer_builder.verif_block_size_unclamped(block_size);
         }
         let mut writer = writer_builder.build(count_write_chunk);
 
